@@ -5,6 +5,7 @@ SETUP_VARIANTS = ["plain", "asan", "fips", "tsan", "fips-tsan"]
 ENGINES = {
     "hashmb": dict(src=["harness/hashmb.c", "harness/hashbig.c", "harness/hashalgs.c"]),
     "aesdiff": dict(src=["harness/aesdiff.c", "harness/aesfam.c"]),
+    "mhroll": dict(src=["harness/mhroll.c"]),
 }
 
 HASH_ALGS = ["sha1", "sha256", "sha512", "md5", "sm3"]
@@ -52,6 +53,23 @@ def aes_tasks(prop, what, fams, quick_n, thorough_n, parts_q=2, parts_t=4):
     return gen
 
 
+def mh_tasks(prop, whats, fams, quick_n, thorough_n, variants=("plain", "asan"), parts_q=1, parts_t=3):
+    def gen(tier):
+        tasks = []
+        for v in variants:
+            n = quick_n if tier == "quick" else thorough_n
+            if v != "plain":
+                n = max(100, n // 4)
+            for what in whats:
+                for fam in fams:
+                    for (f, c) in split(n, parts_q if tier == "quick" else parts_t):
+                        tasks.append(dict(engine="mhroll", variant=v,
+                                          args=["--prop", prop, "--what", what, "--fam", fam, "--from", f, "--count", c]))
+        return tasks
+    return gen
+
+
+MH_FAMS = ["base", "sse", "avx", "avx2", "avx512"]
 GCM_FAMS = ["sse", "avx_gen2", "avx_gen4", "vaes_avx512"]
 AES_TRUST = TRUST + ["OpenSSL 3.0 EVP as second oracle for inputs longer than 4-8 KiB; ref, OpenSSL and published vectors are cross-checked at start-up"]
 
@@ -117,5 +135,32 @@ CHECKS = {
               "distinct_nontrivial = distinct (family, key size, dir, in-place, route, block-count class) and (key size, key)"),
         assumptions=AES_TRUST,
         tasks=aes_tasks("C04", "cbc", ["sse", "avx", "avx512_g2"], 1500, 40000),
+    ),
+    "C05": dict(
+        level="exploration", evaluations="mh_streams", must_observe=["mh_streams", "mh_update_calls"] + ["cases_" + f for f in MH_FAMS],
+        rule=("case c<=2200 hashes a stream of exactly c bytes, later cases lengths 1024k-9..1024k+9, 1024k+1000..1023 (second padding block), random to 256 KiB "
+              "(4 MiB in thorough); the stream is cut into update calls in five styles (one call, pieces chosen relative to the carried partial block: empty / under-fill / "
+              "exactly complete / overshoot / whole blocks, uniform, up to 3000 bytes, mixed) with trailing zero-length updates; random buffer alignment; context memory "
+              "filled with junk before init; all five families via family symbols and via the isal_/legacy API forced onto the family; mh_sha1 and mh_sha256; "
+              "distinct_nontrivial = distinct (algorithm, family, carried-partial class, piece class) and (algorithm, family, route, length class)"),
+        assumptions=TRUST + ["multi-hash reference built from the statement of C05 on top of the reference SHA-1/SHA-256 compression functions; the [word][segment] interim-digest layout hashed by the outer hash is the library's documented on-disk format"],
+        tasks=mh_tasks("C05", ["mh_sha1", "mh_sha256"], MH_FAMS, 2700, 40000),
+    ),
+    "C10": dict(
+        level="exploration", evaluations="mh_streams", must_observe=["mh_streams", "mh_update_calls"] + ["cases_" + f for f in MH_FAMS],
+        rule=("as C05 for the stitched mh_sha1_murmur3_x64_128: both outputs are compared, the SHA-1 side with the multi-hash reference and the murmur side with a "
+              "reference MurmurHash3_x64_128 (h1=h2=seed) of the whole stream; seeds 0, 1, 2^64-1 and random; stream lengths cover every value of len mod 16 and len mod 1024"),
+        assumptions=TRUST,
+        tasks=mh_tasks("C10", ["murmur"], MH_FAMS, 2700, 40000),
+    ),
+    "C09": dict(
+        level="exploration", evaluations="rolling_run_calls", must_observe=["rolling_run_calls", "rolling_hits", "rolling_direct_scans", "mask_gen_calls", "cases_base", "cases_00", "cases_04"],
+        rule=("case c uses window w = c mod 48 + 1; stream of up to 20000 (64 Ki in thorough) bytes of random / constant / 3-symbol / slowly changing content; mask with 0..16 "
+              "random bits or from mask_gen, trigger a subset of mask or 0; the stream is consumed by run calls with max_len 0, 1, <w, =w, w+1, rest, random, resuming where the "
+              "previous call stopped; after every call offset+match are compared with a from-scratch evaluation of the table formula at every position, and state hash and "
+              "remembered window with the last w bytes; the three scan kernels are forced through the dispatcher and also called directly on identical arguments; "
+              "the 256-entry table is compared with a pinned golden copy; mask_gen is checked for all shifts around all powers of two"),
+        assumptions=TRUST + ["golden copy of the rolling-hash table taken from the pinned snapshot (the constant defines the on-disk chunking format)"],
+        tasks=mh_tasks("C09", ["rolling"], ["base", "00", "04"], 1500, 30000),
     ),
 }
